@@ -92,8 +92,9 @@ def main(argv):
             if o.oid.rsplit("@", 1)[-1] in sxlib.CONFIGS:
                 continue
             counts[o.rule] = counts.get(o.rule, 0) + 1
+        totals = {k: v.get("of_total", 0) for k, v in stats.items() if "@" not in k}
         if freeze:
-            floors[pid] = counts
+            floors[pid] = dict(counts, _total=totals)
             with open(os.path.join(VERIF, "tables", "floors.json"), "w") as f:
                 json.dump(floors, f, indent=1, sort_keys=True)
             print("floors frozen for %s: %s" % (pid, counts))
@@ -101,17 +102,23 @@ def main(argv):
         if fl is None:
             raise AnalysisBroken("no instance floors frozen for %s (tables/floors.json)" % pid)
         floor_msgs = []
+        # Floors guard against a rule going vacuous (its anchors renamed away, its engine matching nothing), not against
+        # sites moving: instances frozen on the reviewed tree are keyed by function, so extracting a block into a new static
+        # helper legitimately takes a few of them out of one property's scope (benign sets R2, R5, R7, R8).  Two levels:
+        #   - per property: at least a third of the frozen instances of each rule (and at least one) are still matched;
+        #   - per rule over the whole library: at most an eighth (at least 2) of the frozen instances may be missing.
         for rule, n in fl.items():
-            # the floor guards against a rule going vacuous, not against single sites moving: tolerate a small shortfall
-            slack = (n // 10) if n >= 20 else (1 if n >= 5 else 0)
-            if rule in ("R-CAP", "R-INB", "R-WRAP", "R-ORD"):
-                # armed / frozen-on-the-reviewed-tree instances are keyed by function: extracting a loop into a new static
-                # helper moves its sites out of the armed groups (found with benign set R7).  The floor only guards
-                # against wholesale loss here: at least half of the frozen instances must still be matched.
-                slack = max(slack, n // 2)
-            if counts.get(rule, 0) < n - slack:
-                floor_msgs.append("%s: rule %s matched %d instances, below the confirmed floor %d — anchors moved or the rule lost its sites"
-                                  % (pid, rule, counts.get(rule, 0), n))
+            if rule == "_total":
+                continue
+            need = max(1, (n + 2) // 3) if n else 0
+            if counts.get(rule, 0) < need:
+                floor_msgs.append("%s: rule %s matched %d instances, below the confirmed floor %d (of %d on the reviewed tree) — anchors moved or the rule lost its sites"
+                                  % (pid, rule, counts.get(rule, 0), need, n))
+        for rule, n in (fl.get("_total") or {}).items():
+            slack = max(2, n // 8)
+            if rule in totals and totals[rule] < n - slack:
+                floor_msgs.append("%s: rule %s produced %d instances over the whole library, %d on the reviewed tree — the rule lost its sites"
+                                  % (pid, rule, totals[rule], n))
         # a definite violation is reported as such; a floor shortfall alone is analysis-broken
         if floor_msgs and not any(not o.ok for o in obs):
             raise AnalysisBroken("; ".join(floor_msgs))
